@@ -587,6 +587,10 @@ def run_case(case, acc):
     vk = vkernel.VK()
     vk.mount("/vproc", fs)
     vk.redirect("/sys/block", root)
+    # sysfs directories list their entries in no particular order
+    h = harness.chash(case)[-3]
+    if h in "0123":
+        vk.list_order = (lambda p, names: sorted(names)) if h in "01" else (lambda p, names: sorted(names, reverse=True))
     viols = []
     try:
         with vk:
